@@ -26,7 +26,7 @@ SettingsPool ==
      [builder |-> FALSE, convert |-> << [schema |-> PathS, ty |-> "crate::support::PathLike", impls |-> <<"FromStr">>] >>],
      [builder |-> FALSE, convert |-> << [schema |-> PathS, ty |-> "crate::support::ShowOnly", impls |-> <<"Display">>] >>],
      [builder |-> FALSE, convert |-> << [schema |-> PathS, ty |-> "crate::support::Num", impls |-> << >>] >>],
-     [builder |-> TRUE, convert |-> << [schema |-> PathS, ty |-> "::std::string::String", impls |-> <<"FromStr", "Display">>] >>] >>
+     [builder |-> TRUE, convert |-> << [schema |-> PathS, ty |-> "crate::support::Both", impls |-> <<"FromStr", "Display">>] >>] >>
 ConvIdx == {7, 8, 9, 10}
 
 (* ingestion histories for one document *)
